@@ -32,15 +32,16 @@ PROP = dict(
     nontrivial=_nontrivial,
     # the model is silent (`nomodel`) where a trusted library decides: non-ASCII upper/lower, regexps outside the mini language
     corr_skip=lambda op, impl, model: model == "nomodel",
-    rule="ops call the real descriptors of functions.FunctionMap(): `like s p` on ALL (p, s) with |p| <= 2 over the 24-symbol "
-         "alphabet {a A b % _ \\ . * + ? | ( ) [ ] { } ^ $ \\n é ż 😀 0xff} and |s| <= 1 (a seeded sixth of |s| = 2; thorough: all |p| <= 2 x |s| <= 2 "
-         "and |p| <= 3 x reduced subjects) plus random longer pattern/subject pairs built to match or just miss; `tilde`/`tildei` on all "
-         "2-symbol patterns and generated regexps; reverse/len/upper/lower on all short words, every single byte, every byte after "
-         "each multi-byte lead, random malformed UTF-8; substr on edge integers (MinInt64..MaxInt64) and all offsets; replace/position "
-         "exhaustively over a 4-symbol alphabet and overlapping-occurrence words. The LIKE regexp text (verif hook) is compared exactly. "
-         "non-trivial = like line with a well-formed pattern containing a wildcard/escape/metacharacter/non-ASCII byte; ~ line whose "
-         "pattern compiles; unary line with >= 2 bytes; replace/position with a non-empty needle",
-    exhaustive=dict(quick=False, thorough=False),
+    rule="ops call the real descriptors of functions.FunctionMap(). EXHAUSTIVE part: `like s p` on ALL 361 201 pairs (p, s) with |p| <= 2 and "
+         "|s| <= 2 symbols of the 24-symbol alphabet {a A b % _ \\ . * + ? | ( ) [ ] { } ^ $ \\n é ż 😀 0xff} (thorough: also all |p| = 3 x |s| <= 1 and a "
+         "seeded eighth of |p| = 3 x |s| <= 3 over 8 subject symbols); `tilde`/`tildei` on all <= 2-symbol patterns x 24 subjects (quick: a third of the "
+         "2-symbol ones); reverse/len on all words of <= 2 (thorough 3) symbols, every single byte, every byte after each multi-byte lead; replace/position "
+         "on all haystacks <= 3 (thorough 4) x needles <= 2 over {a b é 0xff} and all {a,b}-words of length <= 6 with overlapping needles; substr on "
+         "edge integers (MinInt64..MaxInt64) and every offset/length in -2..len+2. RANDOM part: longer LIKE pattern/subject pairs built to match or just miss "
+         "(incl. malformed escapes, malformed UTF-8), generated regexps, random malformed UTF-8 for the unary functions, random replace/position/substr. "
+         "The LIKE regexp text (verif hook) is compared exactly with the model's. non-trivial = like line with a well-formed pattern containing a "
+         "wildcard/escape/metacharacter/non-ASCII byte; ~ line whose pattern compiles; unary line with >= 2 bytes; replace/position with a non-empty needle",
+    exhaustive=dict(quick=True, thorough=True),
     assumptions=[
         "Go's regexp engine agrees with the mini regular-expression semantics Octo.Rx on the sub-language LIKE emits "
         "(hypothesis ReAgrees of like_spec_bytes; sampled on every run: the real engine's result is compared with Pat.search)",
